@@ -689,6 +689,18 @@ fn shrink(w: &World, mut ops: Vec<Op>, fp: &str) -> Vec<Op> {
     }
 }
 
+/// replay document for a failing history: minimised, with the messages the minimised history
+/// produces for this fingerprint (the first of them becomes the reported `what`)
+fn minimised(w: &World, ops: &[Op], fp: &str, what: String) -> (J, String) {
+    let small = shrink(w, ops.to_vec(), fp);
+    let after: Vec<String> = run_history(w, &small, false).into_iter().filter(|(f, _)| f == fp).map(|(_, m)| m).collect();
+    let mut j = history_json(w.cfg, &small);
+    j["found_as"] = json!(ops.iter().map(Op::to_json).collect::<Vec<_>>());
+    j["mismatches_after_minimised_history"] = json!(after);
+    let what = after.first().cloned().unwrap_or(what);
+    (j, what)
+}
+
 fn history_json(cfg: Cfg, ops: &[Op]) -> J {
     json!({"kind": "history", "universe": cfg.json(), "start": "Entities::empty()", "ops": ops.iter().map(Op::to_json).collect::<Vec<_>>()})
 }
@@ -717,14 +729,15 @@ impl Shared {
     }
     /// report a mismatch; the replay document is built (and the history minimised) only for the
     /// first occurrence of a fingerprint, later occurrences are only counted
-    fn report(&self, fp: String, what: String, mk: impl FnOnce() -> J) {
+    fn report(&self, fp: String, what: String, mk: impl FnOnce(String) -> (J, String)) {
         if self.seen.read().unwrap().contains(&fp) {
             self.repeats.fetch_add(1, Ordering::Relaxed);
             return;
         }
         let mut s = self.seen.write().unwrap();
         if s.insert(fp.clone()) {
-            self.ctx.violation(fp, what, mk());
+            let (j, what) = mk(what);
+            self.ctx.violation(fp, what, j);
         } else {
             self.repeats.fetch_add(1, Ordering::Relaxed);
         }
@@ -779,14 +792,7 @@ impl Mc {
     }
     fn report_hist(&self, fp: String, what: String, hist: &[u32]) {
         let fp2 = fp.clone();
-        self.sh.report(fp, what, || {
-            let ops = self.hist_ops(hist);
-            let small = shrink(&self.w, ops.clone(), &fp2);
-            let mut j = history_json(self.w.cfg, &small);
-            j["found_as"] = json!(ops.iter().map(Op::to_json).collect::<Vec<_>>());
-            j["after_history"] = json!(run_history(&self.w, &small, false).into_iter().filter(|(f, _)| *f == fp2).map(|(_, w)| w).collect::<Vec<_>>());
-            j
-        });
+        self.sh.report(fp, what, |what| minimised(&self.w, &self.hist_ops(hist), &fp2, what));
     }
 }
 
@@ -924,12 +930,7 @@ fn from_sweep(sh: &Shared, w: &World) {
                 for (fp, what) in bad {
                     let fp2 = fp.clone();
                     let ops = vec![op.clone()];
-                    sh.report(fp, what, || {
-                        let small = shrink(w, ops.clone(), &fp2);
-                        let mut j = history_json(cfg, &small);
-                        j["found_as"] = json!(ops.iter().map(Op::to_json).collect::<Vec<_>>());
-                        j
-                    });
+                    sh.report(fp, what, |what| minimised(w, &ops, &fp2, what));
                 }
             }
         }
@@ -1074,7 +1075,7 @@ fn enforce_sweep(sh: &Shared) {
             l.transitions += 1;
             if let Some(bad) = sh.ctx.guard("C04 enforce", case, || enforce_case(&edges, pmask, imask)) {
                 for (fp, what) in bad {
-                    sh.report(fp, what, case);
+                    sh.report(fp, what, |what| (case(), what));
                 }
             }
         }
